@@ -4,6 +4,7 @@
 #include "BaseGraph/directed_graph.hpp"
 #include "BaseGraph/undirected_graph.hpp"
 #include "BaseGraph/algorithms/topology.hpp"
+#include "ops_classes.hpp"
 #include <unordered_set>
 using namespace BaseGraph;
 using namespace vh;
@@ -42,21 +43,6 @@ template <class L> Obs queryD(const LabeledDirectedGraph<L> &g, unsigned v) {
     q.push_back(guard([&] { return Lab<L>::code(g.getEdgeLabel(v, 0, false)); })); q.push_back(guard([&] { return Lab<L>::code(g.getEdgeLabel(0, v, true)); }));
     q.push_back(guard([&] { return (Z)g.hasEdge(v, 0, Lab<L>::mk(0)); }));
     return q;
-}
-template <class L> Z applyOp(LabeledDirectedGraph<L> &g, const std::string &op) {
-        std::istringstream is(op); std::string k; is >> k; long i = 0, j = 0, l = 0, f = 0;
-        return guard([&]() -> Z {
-            if (k == "A") { is >> i >> j >> l >> f; g.addEdge(i, j, Lab<L>::mk(l), (bool)f); }
-            else if (k == "AR") { is >> i >> j >> l >> f; g.addReciprocalEdge(i, j, Lab<L>::mk(l), (bool)f); }
-            else if (k == "R") { is >> i >> j; g.removeEdge(i, j); }
-            else if (k == "SL") g.removeSelfLoops();
-            else if (k == "V") { is >> i; g.removeVertexFromEdgeList(i); }
-            else if (k == "CL") g.clearEdges();
-            else if (k == "RZ") { is >> i; g.resize(i); }
-            else if (k == "SLB") { is >> i >> j >> l >> f; g.setEdgeLabel(i, j, Lab<L>::mk(l), (bool)f); }
-            else if (k == "DD") g.removeDuplicateEdges();
-            else throw std::logic_error("unknown op " + k);
-            return 0; });
 }
 template <class L> void runD(size_t n0, const std::vector<std::string> &ops) {
     LabeledDirectedGraph<L> g(n0);
@@ -102,20 +88,6 @@ template <class L> Obs queryU(const LabeledUndirectedGraph<L> &g, unsigned v) {
     q.push_back(guard([&] { return Lab<L>::code(g.getEdgeLabel(v, 0, false)); })); q.push_back(guard([&] { return Lab<L>::code(g.getEdgeLabel(0, v, true)); }));
     q.push_back(guard([&] { return (Z)g.hasEdge(v, 0, Lab<L>::mk(0)); }));
     return q;
-}
-template <class L> Z applyOp(LabeledUndirectedGraph<L> &g, const std::string &op) {
-        std::istringstream is(op); std::string k; is >> k; long i = 0, j = 0, l = 0, f = 0;
-        return guard([&]() -> Z {
-            if (k == "A") { is >> i >> j >> l >> f; g.addEdge(i, j, Lab<L>::mk(l), (bool)f); }
-            else if (k == "R") { is >> i >> j; g.removeEdge(i, j); }
-            else if (k == "SL") g.removeSelfLoops();
-            else if (k == "V") { is >> i; g.removeVertexFromEdgeList(i); }
-            else if (k == "CL") g.clearEdges();
-            else if (k == "RZ") { is >> i; g.resize(i); }
-            else if (k == "SLB") { is >> i >> j >> l >> f; g.setEdgeLabel(i, j, Lab<L>::mk(l), (bool)f); }
-            else if (k == "DD") g.removeDuplicateEdges();
-            else throw std::logic_error("unknown op " + k);
-            return 0; });
 }
 template <class L> void runU(size_t n0, const std::vector<std::string> &ops) {
     LabeledUndirectedGraph<L> g(n0);
